@@ -75,6 +75,7 @@ class Sym:
         self.used = set()        # me / qempty / rand
         self.resumes = []        # lean bodies of the continuation after a wait
         self.bool_params = []
+        self.loop_depth = 0
 
     # ---- expressions
     def state(self, env):
@@ -208,17 +209,19 @@ class Sym:
                 b = self.run(([ks[2]] if len(ks) > 2 else []) + rest, env.copy(), list(ns))
                 return 'if %s then %s else %s' % (c, a, b)
             if k == 'WhileStmt':
-                body = [c for c in A.kids(ks[-1]) if not A.is_assert_stub(c)] if ks[-1].get('kind') == 'CompoundStmt' else [ks[-1]]
-                w = self.wait_of(body[0]) if len(body) == 1 else None
-                if w is None:
-                    raise A.ExtractError('%s: only `while (c) { q.Wait(); }` loops are supported' % self.cls)
-                c = self.expr(ks[-2], env)
-                q, timed = w
-                # after the wake-up the loop condition is evaluated again: the continuation is this very loop
-                self.resumes.append(('loop', [s] + rest, None))
+                # `while (c) BODY` = `if (c) { BODY; again } else rest`; BODY must block (contain a Wait), which ends
+                # the symbolic run of that branch — the continuation recorded at the wait re-enters the loop
+                if len(ks) != 2:
+                    raise A.ExtractError('%s: unsupported while form' % self.cls)
+                if not A.find_all(ks[1], lambda n: n.get('kind') in ('CallExpr', 'CXXMemberCallExpr') and
+                                  self.wait_of(n) is not None):
+                    raise A.ExtractError('%s: only loops that wait are supported' % self.cls)
+                c = self.expr(ks[0], env)
+                self.loop_depth += 1
+                a = self.run([ks[1], s] + rest, env.copy(), list(ns))
+                self.loop_depth -= 1
                 b = self.run(rest, env.copy(), list(ns))
-                return 'if %s then .wait %s "%s" %s %s else %s' % (c, self.state(env), q, 'true' if timed else 'false',
-                                                                     self.notes(ns), b)
+                return 'if %s then %s else %s' % (c, a, b)
             # expression statements
             e = A.strip(s)
             ek = e.get('kind')
@@ -226,7 +229,7 @@ class Sym:
             w = self.wait_of(e)
             if w is not None:  # `q.Wait(tag);` result ignored
                 q, timed = w
-                self.resumes.append(('seq', rest, None))
+                self.resumes.append(('loop' if self.loop_depth else 'seq', rest, None))
                 return '.wait %s "%s" %s %s' % (self.state(env), q, 'true' if timed else 'false', self.notes(ns))
             if ek == 'BinaryOperator' and e.get('opcode') == '=':
                 lhs = A.strip(eks[0])
@@ -239,7 +242,7 @@ class Sym:
                     if lhs.get('kind') != 'DeclRefExpr':
                         raise A.ExtractError('%s: wait result stored in a field' % self.cls)
                     q, timed = self.wait_of(A.kids(rhs)[0])
-                    self.resumes.append(('seq', rest, lhs['referencedDecl']['name']))
+                    self.resumes.append(('loop' if self.loop_depth else 'seq', rest, lhs['referencedDecl']['name']))
                     return '.wait %s "%s" %s %s' % (self.state(env), q, 'true' if timed else 'false', self.notes(ns))
                 f = self.field_of(lhs)
                 if f is not None:
@@ -295,8 +298,8 @@ def _fresh_env(sym, m):
     return env
 
 
-def generate(repo, cfg_include, workdir):
-    out = [HEADER]
+def generate(repo, cfg_include, workdir, namespace='Yaclib.Extracted.FiberSync'):
+    out = [HEADER.replace('Yaclib.Extracted.FiberSync', namespace)]
     for rec, fields in RECORDS.items():
         out.append('structure %s where\n%s\n  deriving DecidableEq, Repr\n' %
                    (rec, '\n'.join('  %s : %s' % (lf, ty) for (_, lf, ty) in fields)))
@@ -330,6 +333,7 @@ def generate(repo, cfg_include, workdir):
             rbodies = []
             for (kind, stmts, var) in resumes:
                 sym.resumes = []
+                sym.loop_depth = 0
                 env2 = _fresh_env(sym, m)
                 if var is not None:
                     env2.l[var] = 'ready'
@@ -355,7 +359,7 @@ def generate(repo, cfg_include, workdir):
     out.append('/-- (class, method, blocks?, `loop` = the wait sits in a `while` that re-checks, `seq` = it does not) -/')
     out.append('def methods : List (String × String × Bool × String) := [\n' +
                ',\n'.join('  ("%s", "%s", %s, "%s")' % (c, n, 'true' if b else 'false', k) for (c, n, b, k) in table) + '\n]\n')
-    out.append('end Yaclib.Extracted.FiberSync\n')
+    out.append('end %s\n' % namespace)
     return '\n'.join(out)
 
 
